@@ -162,26 +162,50 @@ def symbolic_constants_in_arithmetic(stms, consts=()):
     return bad
 
 
-def antimonotone_domain_sigs(stms, prefix):
+def _anti_literals(rule):
+    """strings of the literals at antimonotone positions of a rule body"""
+    out = []
+    for b in rule.body:
+        if b.ast_type == ASTType.Literal and b.sign == Sign.Negation:
+            out.append(str(b))
+        elif b.ast_type == ASTType.ConditionalLiteral:
+            out += [str(c) for c in b.condition]
+            if b.literal.sign == Sign.Negation:
+                out.append(str(b.literal))
+    return out
+
+
+def antimonotone_domain_sigs(stms, prefix, src_stms=None):
     """signatures that occur under `not`, or in the condition of a conditional literal, in the body of a rule whose head
     predicate is named <prefix>* (after `unused` the substituted domain predicate may have been replaced by the predicate
     that defines it, so the name of the body predicate is not restricted)"""
     out = set()
+    # a literal that stands verbatim at an antimonotone position of a SOURCE rule for the approximated predicate was
+    # copied, not substituted: it has exactly the source extension and cannot make the domain too small
+    exact = {}
+    for s in src_stms or ():
+        if s.ast_type == ASTType.Rule:
+            for name, ar in head_atom_sigs(s):
+                exact.setdefault(name, set()).update(_anti_literals(s))
     for s in stms:
         if s.ast_type != ASTType.Rule or s.head.ast_type != ASTType.Literal or s.head.atom.ast_type != ASTType.SymbolicAtom:
             continue
         try:
-            if not sig_of_atom(s.head.atom)[0].startswith(prefix):
+            hname = sig_of_atom(s.head.atom)[0]
+            if not hname.startswith(prefix):
                 continue
         except ValueError:
             continue
+        same = exact.get(hname[len(prefix):], set())
         for b in s.body:
             if b.ast_type == ASTType.Literal and b.sign == Sign.Negation:
-                out |= all_sigs(b)
+                if str(b) not in same:
+                    out |= all_sigs(b)
             elif b.ast_type == ASTType.ConditionalLiteral:
                 for c in b.condition:
-                    out |= all_sigs(c)
-                if b.literal.sign == Sign.Negation:
+                    if str(c) not in same:
+                        out |= all_sigs(c)
+                if b.literal.sign == Sign.Negation and str(b.literal) not in same:
                     out |= all_sigs(b.literal)
     return out
 
